@@ -2875,7 +2875,7 @@ impl {camel} {{
     #[doc(hidden)]
     fn type_guard<T: {rt}::Resource>() {{
         use core::any::TypeId;
-        static mut LAST_TYPE: Option<TypeId> = None;
+        static mut LAST_TYPE: ::core::option::Option<TypeId> = None;
         unsafe {{
             assert!(!cfg!(target_feature = "atomics"));
             let id = TypeId::of::<T>();
